@@ -22,6 +22,14 @@ import z3
 from ..common import find_def, parse_repo_file
 
 
+def set_budget(solver, timeout_ms):
+    """wall-clock budget + a DETERMINISTIC resource limit as backstop: z3's timeout is delivered by a timer thread and has been
+    observed not to fire (forked workers, 5.1.0); the resource counter is advanced by the searching thread itself.  ~4-15M units
+    per second are consumed, so the limit lies well above the wall-clock budget and only stops a search whose timer failed."""
+    solver.set("timeout", int(timeout_ms))
+    solver.set("rlimit", int(timeout_ms) * 40000)
+
+
 class Unsupp(Exception):
     """construct outside the supported subset: the extractor refuses (=> undecided, never a violation)"""
 
@@ -458,8 +466,13 @@ class Ctx:
         self.pos = 0
         self.decisions = []
         self.forks = []            # alternative prefixes discovered on this run
+        if world.theories:
+            # quantified sequence axioms: proofs come from E-matching; model-based instantiation only burns the budget (and
+            # z3 does not honour its timeout inside an MBQI round).  Without it `unknown` comes back quickly, and an undecided
+            # VC falls through to the bounded native search -- never to a violation.
+            z3.set_param("smt.mbqi", False)
         self.solver = z3.Solver()
-        self.solver.set("timeout", timeout_ms)
+        set_budget(self.solver, timeout_ms)
         self.timeout_ms = timeout_ms
         self.feas_timeout_ms = min(1500, timeout_ms)
         self.pc = []
@@ -477,7 +490,7 @@ class Ctx:
         self.qf_solver = None
         if world.theories:
             self.qf_solver = z3.Solver()
-            self.qf_solver.set("timeout", self.feas_timeout_ms)
+            set_budget(self.qf_solver, self.feas_timeout_ms)
         for th in world.theories.values():
             for ax in th.axioms:
                 self.solver.add(ax)
@@ -525,10 +538,10 @@ class Ctx:
             d = self.prefix[self.pos]
         else:
             # feasibility is only an optimisation (an infeasible path has vacuous VCs): short budget, unknown = feasible
-            self.solver.set("timeout", self.feas_timeout_ms)
+            set_budget(self.solver, self.feas_timeout_ms)
             can_t = self._feasible(cond)
             can_f = self._feasible(z3.Not(cond))
-            self.solver.set("timeout", self.timeout_ms)
+            set_budget(self.solver, self.timeout_ms)
             if can_t and can_f:
                 self.forks.append(self.decisions + [False])
                 d = True
@@ -551,9 +564,9 @@ class Ctx:
             return
         if goal is False:
             goal = z3.BoolVal(False)
-        self.solver.set("timeout", min(3000, self.timeout_ms))
+        set_budget(self.solver, min(3000, self.timeout_ms))
         r = self._check(z3.Not(goal))
-        self.solver.set("timeout", self.timeout_ms)
+        set_budget(self.solver, self.timeout_ms)
         if r == z3.unsat:
             self.vc_log.append((label, "unsat"))
             return
@@ -625,7 +638,7 @@ def fresh_check(assertions, timeout_ms):
         s0 = z3.Solver()
         s0.add(*assertions)
         s1 = z3.Solver()
-        s1.set("timeout", timeout_ms)
+        set_budget(s1, timeout_ms)
         s1.from_string(s0.to_smt2())
         return s1.check()
     except z3.Z3Exception:
